@@ -39,7 +39,7 @@ protected:
 
 public:
     GammaKernel(double a, double t)
-        : alpha(a), theta(t), gamma_distribution(alpha, 1.0 / theta)
+        : alpha(a), theta(t), gamma_distribution(alpha, theta)
     {
         if (alpha <= 0 || theta <= 0) {
             throw std::invalid_argument(
